@@ -51,7 +51,7 @@ fn s32(x: i32) -> u64 {
 }
 
 struct W {
-    id: &'static str,
+    id: String,
     /// public function(s) of rusl (path below rusl/src) that this entry calls
     func: &'static str,
     nr: &'static str,
@@ -59,6 +59,8 @@ struct W {
     retry: &'static str,
     /// successes are forced in pass-through mode
     pass: bool,
+    /// which value of an enum / flag / degenerate argument this entry exercises ("" = the benign default)
+    variant: String,
     call: Box<dyn FnMut() -> R>,
 }
 
@@ -71,7 +73,7 @@ fn table() -> Vec<W> {
     let mut t: Vec<W> = Vec::new();
     macro_rules! w {
         ($id:expr, $func:expr, $nr:expr, $kind:expr, $call:expr) => {
-            t.push(W { id: $id, func: $func, nr: $nr, kind: $kind, retry: "none", pass: false, call: Box::new($call) })
+            t.push(W { id: $id.to_string(), func: $func, nr: $nr, kind: $kind, retry: "none", pass: false, variant: String::new(), call: Box::new($call) })
         };
     }
     let fd = Fd::try_new(1000).unwrap(); // never reaches the kernel when the call is suppressed
@@ -133,8 +135,8 @@ fn table() -> Vec<W> {
     w!("unistd.rename_flags", "unistd/rename.rs:rename_flags", "renameat2", "unit", move || u(rusl::unistd::rename_flags(path, path2, RenameFlags::empty())));
     w!("unistd.rename_at", "unistd/rename.rs:rename_at", "renameat2", "unit", move || u(rusl::unistd::rename_at(fd, path, fd2, path2)));
     w!("unistd.rename_at2", "unistd/rename.rs:rename_at2", "renameat2", "unit", move || u(rusl::unistd::rename_at2(fd, path, fd2, path2, RenameFlags::empty())));
-    t.push(W { id: "unistd.dup2", func: "unistd/dup.rs:dup2", nr: "dup3", kind: "unit", retry: "ebusy", pass: false, call: Box::new(move || u(rusl::unistd::dup2(fd, fd2))) });
-    t.push(W { id: "unistd.dup3", func: "unistd/dup.rs:dup3", nr: "dup3", kind: "unit", retry: "ebusy", pass: false, call: Box::new(move || u(rusl::unistd::dup3(fd, fd2, true))) });
+    t.push(W { id: "unistd.dup2".to_string(), func: "unistd/dup.rs:dup2", nr: "dup3", kind: "unit", retry: "ebusy", pass: false, variant: String::new(), call: Box::new(move || u(rusl::unistd::dup2(fd, fd2))) });
+    t.push(W { id: "unistd.dup3".to_string(), func: "unistd/dup.rs:dup3", nr: "dup3", kind: "unit", retry: "ebusy", pass: false, variant: String::new(), call: Box::new(move || u(rusl::unistd::dup3(fd, fd2, true))) });
     w!("unistd.copy_file_range", "unistd/copy_file_range.rs:copy_file_range", "copy_file_range", "usize", move || v(rusl::unistd::copy_file_range(fd, 0, fd2, 0, 16).map(|x| x as u64)));
     w!("unistd.setgid", "unistd/setgid.rs:setgid", "setgid", "unit", move || u(rusl::unistd::setgid(0)));
     w!("unistd.setuid", "unistd/setuid.rs:setuid", "setuid", "unit", move || u(rusl::unistd::setuid(0)));
@@ -145,14 +147,14 @@ fn table() -> Vec<W> {
     let ios: &'static [IoSlice<'static>; 1] = leak([IoSlice::new(&wbuf[..])]);
     w!("unistd.writev", "unistd/write.rs:writev", "writev", "usize", move || v(rusl::unistd::writev(fd, &ios[..]).map(|x| x as u64)));
     // pipe/pipe2 validate the descriptors the kernel wrote: successes run the real call (closed again at once)
-    t.push(W { id: "unistd.pipe", func: "unistd/pipe.rs:pipe", nr: "pipe2", kind: "unit", retry: "none", pass: true, call: Box::new(move || {
+    t.push(W { id: "unistd.pipe".to_string(), func: "unistd/pipe.rs:pipe", nr: "pipe2", kind: "unit", retry: "none", pass: true, variant: String::new(), call: Box::new(move || {
         let r = rusl::unistd::pipe();
         if let Ok(p) = &r {
             unsafe { libc::close(p.in_pipe.value()); libc::close(p.out_pipe.value()); }
         }
         u(r)
     }) });
-    t.push(W { id: "unistd.pipe2", func: "unistd/pipe.rs:pipe2", nr: "pipe2", kind: "unit", retry: "none", pass: true, call: Box::new(move || {
+    t.push(W { id: "unistd.pipe2".to_string(), func: "unistd/pipe.rs:pipe2", nr: "pipe2", kind: "unit", retry: "none", pass: true, variant: String::new(), call: Box::new(move || {
         let r = rusl::unistd::pipe2(OpenFlags::O_CLOEXEC);
         if let Ok(p) = &r {
             unsafe { libc::close(p.in_pipe.value()); libc::close(p.out_pipe.value()); }
@@ -238,6 +240,144 @@ fn table() -> Vec<W> {
     w!("time.clock_get_real_time", "time/clock_get_time.rs:clock_get_real_time", "clock_gettime", "void", move || { let _ = rusl::time::clock_get_real_time(); R::None });
     w!("time.clock_get_monotonic_time", "time/clock_get_time.rs:clock_get_monotonic_time", "clock_gettime", "void", move || { let _ = rusl::time::clock_get_monotonic_time(); R::None });
     w!("time.clock_get_time", "time/clock_get_time.rs:clock_get_time", "clock_gettime", "unit", move || u(rusl::time::clock_get_time(ClockId::CLOCK_MONOTONIC)));
+
+    // ------------------------------------------------------------------------------------------
+    // every variant of the enum-typed parameters, the constants of the flag-typed ones (one at a
+    // time) and the degenerate-but-legal argument values (empty buffers, empty paths, zero counts)
+    macro_rules! var {
+        ($base:expr, $func:expr, $nr:expr, $kind:expr, [$($name:expr => $val:expr),+ $(,)?], |$x:ident| $call:expr) => {
+            $( {
+                let $x = $val;
+                t.push(W { id: format!("{}[{}]", $base, $name), func: $func, nr: $nr, kind: $kind, retry: "none", pass: false,
+                           variant: $name.to_string(), call: Box::new(move || $call) });
+            } )+
+        };
+    }
+    var!("select.epoll_ctl", "select/epoll.rs:epoll_ctl", "epoll_ctl", "unit",
+         ["EpollOp::Add" => EpollOp::Add, "EpollOp::Mod" => EpollOp::Mod, "EpollOp::Del" => EpollOp::Del],
+         |op| u(rusl::select::epoll_ctl(fd, op, fd2, eev)));
+    var!("termios.tcsetattr", "termios/tcsetattr.rs:tcsetattr", "ioctl", "unit",
+         ["SetAction::NOW" => SetAction::NOW, "SetAction::DRAIN" => SetAction::DRAIN, "SetAction::FLUSH" => SetAction::FLUSH],
+         |a| u(rusl::termios::tcsetattr(fd, a, tio)));
+    unsafe extern "C" fn h1(_s: i32) {}
+    unsafe extern "C" fn h3(_s: i32, _i: *mut rusl::process::SigInfo, _c: *const core::ffi::c_void) {}
+    use rusl::process::{CatchSignal as CS, SaSignalaction as SA};
+    var!("process.add_signal_action", "process/signal.rs:add_signal_action", "rt_sigaction", "unit",
+         ["CatchSignal::Int+SaSignalaction::Dfl" => (0, 0), "CatchSignal::Term+SaSignalaction::Ign" => (1, 1),
+          "CatchSignal::Hup+SaSignalaction::Handler" => (2, 2), "CatchSignal::Segv+SaSignalaction::SigAction" => (3, 3),
+          "CatchSignal::Chld+SaSignalaction::Dfl" => (4, 0), "CatchSignal::Int+SaSignalaction::Handler" => (0, 2),
+          "CatchSignal::Term+SaSignalaction::SigAction" => (1, 3), "CatchSignal::Chld+SaSignalaction::Ign" => (4, 1)],
+         |p| u(unsafe {
+             let sig = match p.0 { 0 => CS::Int, 1 => CS::Term, 2 => CS::Hup, 3 => CS::Segv, _ => CS::Chld };
+             let act = match p.1 { 0 => SA::Dfl, 1 => SA::Ign, 2 => SA::Handler(h1), _ => SA::SigAction(h3) };
+             rusl::process::add_signal_action(sig, act)
+         }));
+    var!("unistd.mmap", "unistd/mmap.rs:mmap", "mmap", "usize",
+         ["MapRequiredFlag::MapShared" => (MapRequiredFlag::MapShared, MemoryProtection::PROT_READ, MapAdditionalFlags::MAP_ANONYMOUS),
+          "MapRequiredFlag::MapSharedValidate" => (MapRequiredFlag::MapSharedValidate, MemoryProtection::PROT_WRITE, MapAdditionalFlags::MAP_POPULATE),
+          "MapRequiredFlag::MapPrivate" => (MapRequiredFlag::MapPrivate, MemoryProtection::PROT_NONE, MapAdditionalFlags::MAP_STACK),
+          "MemoryProtection::PROT_EXEC" => (MapRequiredFlag::MapPrivate, MemoryProtection::PROT_EXEC, MapAdditionalFlags::MAP_NORESERVE),
+          "MapAdditionalFlags::MAP_FIXED" => (MapRequiredFlag::MapPrivate, MemoryProtection::PROT_READ, MapAdditionalFlags::MAP_FIXED),
+          "MapAdditionalFlags::MAP_GROWSDOWN" => (MapRequiredFlag::MapPrivate, MemoryProtection::PROT_READ, MapAdditionalFlags::MAP_GROWSDOWN),
+          "MapAdditionalFlags::MAP_HUGETLB" => (MapRequiredFlag::MapPrivate, MemoryProtection::PROT_READ, MapAdditionalFlags::MAP_HUGETLB),
+          "MapAdditionalFlags::MAP_LOCKED" => (MapRequiredFlag::MapShared, MemoryProtection::PROT_READ, MapAdditionalFlags::MAP_LOCKED)],
+         |a| v(unsafe { rusl::unistd::mmap(None, NonZeroUsize::new(8192).unwrap(), a.1, a.0, a.2, None, 0) }.map(|x| x as u64)));
+    use rusl::unistd::Whence;
+    var!("unistd.lseek", "unistd/seek.rs:lseek", "lseek", "i64",
+         ["Whence::SET" => Whence::SET, "Whence::CUR" => Whence::CUR, "Whence::END" => Whence::END, "Whence::DATA" => Whence::DATA, "Whence::HOLE" => Whence::HOLE],
+         |wh| v(rusl::unistd::lseek(fd, -1, wh).map(|x| x as u64)));
+    var!("time.clock_get_time", "time/clock_get_time.rs:clock_get_time", "clock_gettime", "unit",
+         ["CLOCK_REALTIME" => ClockId::CLOCK_REALTIME, "CLOCK_PROCESS_CPUTIME_ID" => ClockId::CLOCK_PROCESS_CPUTIME_ID,
+          "CLOCK_THREAD_CPUTIME_ID" => ClockId::CLOCK_THREAD_CPUTIME_ID, "CLOCK_MONOTONIC_RAW" => ClockId::CLOCK_MONOTONIC_RAW,
+          "CLOCK_REALTIME_COARSE" => ClockId::CLOCK_REALTIME_COARSE, "CLOCK_MONOTONIC_COARSE" => ClockId::CLOCK_MONOTONIC_COARSE,
+          "CLOCK_BOOTTIME" => ClockId::CLOCK_BOOTTIME, "CLOCK_REALTIME_ALARM" => ClockId::CLOCK_REALTIME_ALARM,
+          "CLOCK_BOOTTIME_ALARM" => ClockId::CLOCK_BOOTTIME_ALARM, "CLOCK_TAI" => ClockId::CLOCK_TAI],
+         |c| u(rusl::time::clock_get_time(c)));
+    var!("process.wait_pid", "process/wait.rs:wait_pid", "wait4", "i32",
+         ["WaitPidFlags::WUNTRACED" => WaitPidFlags::WUNTRACED, "WaitPidFlags::WCONTINUED" => WaitPidFlags::WCONTINUED, "pid=0" => WaitPidFlags::empty()],
+         |f| v(rusl::process::wait_pid(0, f).map(|r| s32(r.pid))));
+    var!("unistd.open", "unistd/open.rs:open", "openat", "i32",
+         ["O_WRONLY" => OpenFlags::O_WRONLY, "O_RDWR" => OpenFlags::O_RDWR, "O_APPEND" => OpenFlags::O_APPEND, "O_ASYNC" => OpenFlags::O_ASYNC,
+          "O_CLOEXEC" => OpenFlags::O_CLOEXEC, "O_CREAT" => OpenFlags::O_CREAT, "O_DIRECT" => OpenFlags::O_DIRECT, "O_DIRECTORY" => OpenFlags::O_DIRECTORY,
+          "O_DSYNC" => OpenFlags::O_DSYNC, "O_EXCL" => OpenFlags::O_EXCL, "O_LARGEFILE" => OpenFlags::O_LARGEFILE, "O_NOATIME" => OpenFlags::O_NOATIME,
+          "O_NOCTTY" => OpenFlags::O_NOCTTY, "O_NOFOLLOW" => OpenFlags::O_NOFOLLOW, "O_NONBLOCK" => OpenFlags::O_NONBLOCK, "O_PATH" => OpenFlags::O_PATH,
+          "O_SYNC" => OpenFlags::O_SYNC, "O_TMPFILE" => OpenFlags::O_TMPFILE, "O_TRUNC" => OpenFlags::O_TRUNC,
+          "O_CREAT|O_EXCL|O_WRONLY" => OpenFlags::O_CREAT | OpenFlags::O_EXCL | OpenFlags::O_WRONLY],
+         |f| v(rusl::unistd::open(path, f).map(|x| s32(x.value()))));
+    var!("unistd.open_mode", "unistd/open.rs:open_mode", "openat", "i32",
+         ["S_IRWXU" => Mode::S_IRWXU, "S_IRUSR|S_IWUSR" => Mode::S_IRUSR | Mode::S_IWUSR, "S_ISUID" => Mode::S_ISUID, "S_IRWXO" => Mode::S_IRWXO],
+         |m| v(rusl::unistd::open_mode(path, OpenFlags::O_CREAT | OpenFlags::O_WRONLY, m).map(|x| s32(x.value()))));
+    var!("futex.futex_wait", "futex.rs:futex_wait", "futex", "unit",
+         ["FutexFlags::empty" => FutexFlags::empty(), "FutexFlags::CLOCK_REALTIME" => FutexFlags::CLOCK_REALTIME],
+         |f| u(rusl::futex::futex_wait(fut, 0, f, None)));
+    var!("unistd.rename_flags", "unistd/rename.rs:rename_flags", "renameat2", "unit",
+         ["RENAME_EXCHANGE" => RenameFlags::RENAME_EXCHANGE, "RENAME_NOREPLACE" => RenameFlags::RENAME_NOREPLACE, "RENAME_WHITEOUT" => RenameFlags::RENAME_WHITEOUT],
+         |f| u(rusl::unistd::rename_flags(path, path2, f)));
+    var!("network.socket", "network/socket.rs:socket", "socket", "i32",
+         ["AF_INET+SOCK_STREAM" => (AddressFamily::AF_INET, SocketType::SOCK_STREAM, SocketFlags::SOCK_CLOEXEC, 6),
+          "AF_INET6+SOCK_DGRAM" => (AddressFamily::AF_INET6, SocketType::SOCK_DGRAM, SocketFlags::SOCK_NONBLOCK, 17),
+          "AF_NETLINK+SOCK_RAW" => (AddressFamily::AF_NETLINK, SocketType::SOCK_RAW, SocketFlags::empty(), 0),
+          "AF_PACKET+SOCK_PACKET" => (AddressFamily::AF_PACKET, SocketType::SOCK_PACKET, SocketFlags::empty(), 0),
+          "AF_UNIX+SOCK_SEQPACKET" => (AddressFamily::AF_UNIX, SocketType::SOCK_SEQPACKET, SocketFlags::SOCK_CLOEXEC | SocketFlags::SOCK_NONBLOCK, 0),
+          "AF_UNSPEC+SOCK_RDM" => (AddressFamily::AF_UNSPEC, SocketType::SOCK_RDM, SocketFlags::empty(), -1)],
+         |a| v(rusl::network::socket(a.0, SocketOptions::new(a.1, a.2), a.3).map(|x| s32(x.value()))));
+    var!("network.accept_unix", "network/accept.rs:accept_unix", "accept4", "i32",
+         ["SOCK_CLOEXEC" => SocketFlags::SOCK_CLOEXEC, "SOCK_NONBLOCK" => SocketFlags::SOCK_NONBLOCK],
+         |f| v(rusl::network::accept_unix(fd, f).map(|(x, _)| s32(x.value()))));
+    var!("network.accept_inet", "network/accept.rs:accept_inet", "accept4", "i32",
+         ["SOCK_CLOEXEC|SOCK_NONBLOCK" => SocketFlags::SOCK_CLOEXEC | SocketFlags::SOCK_NONBLOCK],
+         |f| v(rusl::network::accept_inet(fd, f).map(|(x, _)| s32(x.value()))));
+    var!("ioctl.ioctl", "ioctl.rs:ioctl", "ioctl", "usize",
+         ["request=0" => 0usize, "TIOCGWINSZ" => 0x5413usize, "FIONREAD" => 0x541busize, "FIONBIO" => 0x5421usize, "request=max" => usize::MAX],
+         |r| v(unsafe { rusl::ioctl::ioctl(fd, r, 0) }.map(|x| x as u64)));
+    var!("io_uring.io_uring_enter", "io_uring.rs:io_uring_enter", "io_uring_enter", "usize",
+         ["IORING_ENTER_GETEVENTS" => IoUringEnterFlags::IORING_ENTER_GETEVENTS, "IORING_ENTER_SQ_WAKEUP" => IoUringEnterFlags::IORING_ENTER_SQ_WAKEUP,
+          "IORING_ENTER_SQ_WAIT" => IoUringEnterFlags::IORING_ENTER_SQ_WAIT],
+         |f| v(rusl::io_uring::io_uring_enter(fd, 1, 1, f).map(|x| x as u64)));
+    var!("unistd.unshare", "unistd/unshare.rs:unshare", "unshare", "unit",
+         ["CLONE_FS" => CloneFlags::CLONE_FS, "CLONE_FILES" => CloneFlags::CLONE_FILES, "CLONE_NEWNS" => CloneFlags::CLONE_NEWNS, "CLONE_NEWUSER" => CloneFlags::CLONE_NEWUSER],
+         |f| u(rusl::unistd::unshare(f)));
+    var!("unistd.mount.nodata", "unistd/mount.rs:mount", "mount", "unit",
+         ["EXT4+MS_RDONLY" => (FilesystemType::EXT4, Mountflags::MS_RDONLY), "PROC+MS_NOSUID" => (FilesystemType::PROC, Mountflags::MS_NOSUID),
+          "SYSFS+MS_BIND" => (FilesystemType::SYSFS, Mountflags::MS_BIND), "DEVTMPFS+MS_REMOUNT" => (FilesystemType::DEVTMPFS, Mountflags::MS_REMOUNT),
+          "VFAT+MS_NOEXEC" => (FilesystemType::VFAT, Mountflags::MS_NOEXEC)],
+         |a| u(rusl::unistd::mount(path, path2, a.0, a.1, None)));
+    var!("unistd.fcntl_set_file_status", "unistd/fcntl.rs:fcntl_set_file_status", "fcntl", "unit",
+         ["O_NONBLOCK" => OpenFlags::O_NONBLOCK, "O_APPEND" => OpenFlags::O_APPEND, "empty" => OpenFlags::empty()],
+         |f| u(rusl::unistd::fcntl_set_file_status(fd, f)));
+    var!("select.epoll_wait", "select/epoll.rs:epoll_wait", "epoll_pwait", "usize",
+         ["timeout=-1" => -1i32, "timeout=5" => 5i32, "timeout=max" => i32::MAX],
+         |to| v(rusl::select::epoll_wait(fd, &mut [EpollEvent::new(0, EpollEventMask::EPOLLIN); 1], to).map(|x| x as u64)));
+    // (dup3 with cloexec=false is what dup2 does: covered by unistd.dup2 with its EBUSY retry discipline)
+    // degenerate but legal: nothing to transfer, empty names, zero counts - the call is still issued once
+    let empty: &'static UnixStr = UnixStr::EMPTY;
+    var!("unistd.read", "unistd/read.rs:read", "read", "usize", ["buf=empty" => 0], |_z| v(rusl::unistd::read(fd, &mut []).map(|x| x as u64)));
+    var!("unistd.readv", "unistd/read.rs:readv", "readv", "usize", ["iov=empty" => 0], |_z| v(rusl::unistd::readv(fd, &mut []).map(|x| x as u64)));
+    var!("unistd.write", "unistd/write.rs:write", "write", "usize", ["buf=empty" => 0], |_z| v(rusl::unistd::write(fd, &[]).map(|x| x as u64)));
+    var!("unistd.writev", "unistd/write.rs:writev", "writev", "usize", ["iov=empty" => 0], |_z| v(rusl::unistd::writev(fd, &[]).map(|x| x as u64)));
+    var!("unistd.get_dents", "unistd/get_dents.rs:get_dents", "getdents64", "usize", ["buf=empty" => 0], |_z| v(rusl::unistd::get_dents(fd, &mut []).map(|x| x as u64)));
+    var!("unistd.copy_file_range", "unistd/copy_file_range.rs:copy_file_range", "copy_file_range", "usize", ["len=0" => 0usize, "len=max" => usize::MAX],
+         |n| v(rusl::unistd::copy_file_range(fd, 0, fd2, u64::MAX, n).map(|x| x as u64)));
+    var!("select.ppoll", "select/poll.rs:ppoll", "ppoll", "usize", ["fds=empty" => 0], |_z| v(rusl::select::ppoll(&mut [], Some(zero_ts), None).map(|x| x as u64)));
+    var!("select.ppoll.none", "select/poll.rs:ppoll", "ppoll", "usize", ["timeout=None,fds=empty" => 0], |_z| v(rusl::select::ppoll(&mut [], None, None).map(|x| x as u64)));
+    var!("select.epoll_wait", "select/epoll.rs:epoll_wait", "epoll_pwait", "usize", ["events=empty" => 0], |_z| v(rusl::select::epoll_wait(fd, &mut [], 0).map(|x| x as u64)));
+    var!("io_uring.io_uring_register_files", "io_uring.rs:io_uring_register_files", "io_uring_register", "unit", ["fds=empty" => 0], |_z| u(rusl::io_uring::io_uring_register_files(fd, &[])));
+    var!("io_uring.io_uring_register_io_slices", "io_uring.rs:io_uring_register_io_slices", "io_uring_register", "unit", ["slices=empty" => 0], |_z| u(rusl::io_uring::io_uring_register_io_slices(fd, &[])));
+    var!("io_uring.io_uring_enter", "io_uring.rs:io_uring_enter", "io_uring_enter", "usize", ["submit=0,complete=0" => 0], |_z| v(rusl::io_uring::io_uring_enter(fd, 0, 0, IoUringEnterFlags::empty()).map(|x| x as u64)));
+    var!("futex.futex_wake", "futex.rs:futex_wake", "futex", "usize", ["waiters=0" => 0i32, "waiters=max" => i32::MAX, "waiters=-1" => -1i32], |n| v(rusl::futex::futex_wake(fut, n).map(|x| x as u64)));
+    let zts: &'static TimeSpec = leak(TimeSpec::new_zeroed());
+    var!("time.nanosleep", "time/sleep.rs:nanosleep", "nanosleep", "unit", ["duration=0" => 0], |_z| u(rusl::time::nanosleep(zts, None)));
+    var!("network.listen", "network/listen.rs:listen", "listen", "unit", ["backlog=0" => Fd::try_new(0).unwrap(), "backlog=max" => Fd::MAX], |b| u(rusl::network::listen(fd, b)));
+    var!("unistd.open", "unistd/open.rs:open", "openat", "i32", ["path=empty" => empty], |p| v(rusl::unistd::open(p, rflags).map(|x| s32(x.value()))));
+    var!("unistd.unlink", "unistd/unlink.rs:unlink", "unlinkat", "unit", ["path=empty" => empty], |p| u(rusl::unistd::unlink(p)));
+    var!("unistd.stat", "unistd/stat.rs:stat", "newfstatat", "unit", ["path=empty" => empty], |p| u(rusl::unistd::stat(p)));
+    var!("unistd.mkdir", "unistd/mkdir.rs:mkdir", "mkdirat", "unit", ["path=empty" => empty], |p| u(rusl::unistd::mkdir(p, mode)));
+    var!("unistd.chdir", "unistd/chdir.rs:chdir", "chdir", "unit", ["path=empty" => empty], |p| u(rusl::unistd::chdir(p)));
+    var!("unistd.rename", "unistd/rename.rs:rename", "renameat2", "unit", ["paths=empty" => empty], |p| u(rusl::unistd::rename(p, p)));
+    var!("unistd.lseek", "unistd/seek.rs:lseek", "lseek", "i64", ["offset=min" => i64::MIN, "offset=max" => i64::MAX], |o| v(rusl::unistd::lseek(fd, o, Whence::SET).map(|x| x as u64)));
+    var!("unistd.setuid", "unistd/setuid.rs:setuid", "setuid", "unit", ["uid=max" => u32::MAX], |x| u(rusl::unistd::setuid(x)));
+    var!("unistd.setpgid", "unistd/setpgid.rs:setpgid", "setpgid", "unit", ["pid=-1" => -1], |x| u(rusl::unistd::setpgid(x, x)));
+    var!("process.wait_pid", "process/wait.rs:wait_pid", "wait4", "i32", ["pid=min" => i32::MIN], |x| v(rusl::process::wait_pid(x, WaitPidFlags::WNOHANG).map(|r| s32(r.pid))));
     t
 }
 
@@ -254,7 +394,7 @@ fn main() {
     if args.get(1).map(String::as_str) == Some("list") {
         let mut o = stdout.lock();
         for w in &tab {
-            let l = json!({"w": w.id, "fn": w.func, "nr": w.nr, "kind": w.kind, "retry": w.retry, "pass": w.pass});
+            let l = json!({"w": w.id, "fn": w.func, "nr": w.nr, "kind": w.kind, "retry": w.retry, "pass": w.pass, "variant": w.variant});
             writeln!(o, "{l}").unwrap();
         }
         return;
@@ -281,8 +421,9 @@ fn main() {
         let k = tab.iter().position(|w| w.id == wid).unwrap_or_else(|| panic!("unknown wrapper {wid}"));
         let raws: Vec<String> = p["raws"].as_array().unwrap().iter().map(|x| x.as_str().unwrap().to_string()).collect();
         let modec = p["mode"].as_str().unwrap_or("s");
-        let begin = format!("MARK:{}:begin:force={}/{}/{}", tab[k].id, tab[k].nr, modec, raws.join(";"));
-        let end = format!("MARK:{}:end:{}", tab[k].id, i);
+        // (entry ids may contain ':' - the marker carries the entry's index instead)
+        let begin = format!("MARK:w{}:begin:force={}/{}/{}", k, tab[k].nr, modec, raws.join(";"));
+        let end = format!("MARK:w{}:end:{}", k, i);
         plan.push((i, k, begin.into_bytes(), end.into_bytes()));
     }
     let mut o = stdout.lock();
